@@ -109,6 +109,8 @@ pub struct M {
     pub last_res: &'static str,
     pub run: u64,
     pub dead: bool,
+    /// a byte removed from the display in the `final` summary (a handler's own output)
+    pub filter_disp: Option<u8>,
 }
 
 fn dev_json(k: &str, time: u32, en: bool, lo: u32, hi: u32, vect: u8, prio: u8, slot: usize, val: u16) -> Value {
@@ -132,7 +134,7 @@ impl M {
             devs: vec![dev_json("null", 0, false, 0, 0, 0, 0, 0, 0), dev_json("kbd", 0, false, 0, 0, 0, 0, 0, 0),
                        dev_json("disp", 0, false, 0, 0, 0, 0, 0, 0)],
             regdevs: vec![], last_res: "none",
-            run, dead: false,
+            run, dead: false, filter_disp: None,
         };
         // initial memory as dense segments over a fill word
         let fill = match flags.machine_init {
@@ -475,6 +477,18 @@ impl M {
         if res.is_ok() { self.devs.push(d.clone()); self.regdevs.push(cell); }
         self.host(out, json!({"op": "adddev", "dev": d, "ports": ports, "res": res.map(|x| x as i64).unwrap_or(-1)}));
     }
+    /// Adds a device of the crate's own kinds through `add_device` (a null device, a second
+    /// keyboard or display): they own ports like any other device and must free them on removal.
+    pub fn add_plain_dev(&mut self, out: &mut Out, kind: &str, ports: &[u16]) {
+        use lc3_ensemble::sim::device::NullDevice;
+        let res = match kind {
+            "null" => self.sim.device_handler.add_device(NullDevice, ports).map_err(|_| ()),
+            _ => panic!("unknown plain device kind"),
+        };
+        let d = dev_json("null", 0, false, 0, 0, 0, 0, 0, 0);
+        if res.is_ok() { self.devs.push(d.clone()); }
+        self.host(out, json!({"op": "adddev", "dev": d, "ports": ports, "res": res.map(|x| x as i64).unwrap_or(-1)}));
+    }
     /// Adds a seeded timer with inclusive range lo..=hi; returns its slot.
     pub fn add_timer(&mut self, out: &mut Out, seed: u64, lo: u32, hi: u32, vect: u8, prio: u8, enabled: bool) -> usize {
         let mut t = TimerDevice::new(Some(seed), lo..=hi, vect, prio);
@@ -601,8 +615,12 @@ impl M {
         let p = self.proj();
         let (h1, h2) = self.mem_digest_range(0, 0xFFFF);
         let (u1, u2) = self.mem_digest_range(0x3000, 0xFDFF);
+        let disp_f: Value = match self.filter_disp {
+            Some(b) => Value::Array(p["disp"].as_array().unwrap().iter().filter(|x| x.as_u64() != Some(b as u64)).cloned().collect()),
+            None => p["disp"].clone(),
+        };
         let fin = json!({"pc": p["pc"], "psr": p["psr"], "regs": p["regs"], "ssp": p["ssp"], "icount": p["icount"],
-                         "disp": p["disp"], "kbd": p["kbd"], "fno": p["fno"], "memh": [h1, h2], "umemh": [u1, u2],
+                         "disp": disp_f, "kbd": p["kbd"], "fno": p["fno"], "memh": [h1, h2], "umemh": [u1, u2],
                          "hit_halt": p["hit_halt"], "mcr": p["mcr"], "lastres": self.last_res,
                          "athalt": (self.sim.mem[self.sim.pc].get() == 0xF025 && self.sim.verif_prefetch()) as u8});
         out.emit(json!({"ev": "End", "run": self.run, "proj": p, "final": fin}));
